@@ -6,7 +6,8 @@ as one action per statement group, in the order of the code.  TLC checks Refused
 RanRespectsFlags / CommitFlagNeverIgnored / termination over ALL 186,624 invocations and exports, for each, the predicted
 outcome (which error class a user sees when several things are wrong at once) and effects (is cond-out created, does the index
 file exist, has a task been started).  Each exported invocation is then performed for real (in-process `conductor.__main__`,
-real git repositories, real task processes) and compared field by field: quick replays a covering sample, thorough all of them.
+real git repositories, real task processes) and compared field by field: quick replays a covering sample of 2,500, thorough one of 30,000
+(VERIF_X03_ALL=1: all of them).
 A disagreement is MODEL-DRIFT.  What the model predicts and the code confirms beyond the listed properties is printed as
 FINDING (exit status stays 0, nothing is written to known_findings.json).  Evidence: /verif/extras/X03.json.
 """
@@ -176,7 +177,8 @@ def main(tier):
         rep.machinery("Invocation.tla export failed: %s (%d cases)" % (ex.error, len(cases)))
         return rep.finish()
     rng = random.Random(rep.seed)
-    todo = cases if tier == "thorough" else choose(cases, 2500, rng)
+    # (all 186,624 take about 100 minutes on 16 cores; VERIF_X03_ALL=1 replays every one of them)
+    todo = cases if os.environ.get("VERIF_X03_ALL") else choose(cases, 2500 if tier == "quick" else 30000, rng)
     with C.Scratch("x03") as d:
         tpls = build_templates(d)
         res = C.fork_map(perform, [(tpls, c["inp"]) for c in todo], timeout=120)
@@ -215,7 +217,7 @@ def main(tier):
         if any(i["condout"] != "file" for i in v):
             rep.drift.append("an internal error without cond-out being a file: %s" % [i for i in v if i["condout"] != "file"][:2])
     rep.cov.update({"evaluations": len(todo), "traces_validated_against_impl": len(todo), "agreeing": agree,
-                    "distinct_nontrivial": len(todo), "input_space": len(cases), "exhaustive": tier == "thorough",
+                    "distinct_nontrivial": len(todo), "input_space": len(cases), "exhaustive": len(todo) == len(cases),
                     "outcomes_observed": outcomes,
                     "rule": "every terminal state of Invocation.tla is one real `cond run` invocation (real git repository, real task "
                             "processes); reported error class, cond-out kind, index file, started tasks and recorded rows are compared"})
